@@ -60,11 +60,23 @@ type PropObs struct {
 	K  string `json:"k"`
 	V  []Run  `json:"v"`
 	Hv bool   `json:"hv"`
+	Tk bool   `json:"tk"` // the key is a W3C token (lexical fact about the key bytes)
 }
 type MemObs struct {
-	K string    `json:"k"`
-	V []Run     `json:"v"`
-	P []PropObs `json:"p"`
+	K  string    `json:"k"`
+	V  []Run     `json:"v"`
+	P  []PropObs `json:"p"`
+	Tk bool      `json:"tk"`
+}
+
+// isToken: non-empty and only RFC 7230 tchars
+func isToken(s string) bool {
+	for i := 0; i < len(s); i++ {
+		if !isTChar(s[i]) {
+			return false
+		}
+	}
+	return len(s) > 0
 }
 
 // ---------------------------------------------------------------- text quoting ({xx} for non-token bytes)
@@ -480,7 +492,7 @@ func projProps(ps []baggage.Property) []PropObs {
 	out := []PropObs{}
 	for _, p := range ps {
 		v, hv := p.Value()
-		out = append(out, PropObs{K: quote(p.Key()), V: abstractValue(v), Hv: hv})
+		out = append(out, PropObs{K: quote(p.Key()), V: abstractValue(v), Hv: hv, Tk: isToken(p.Key())})
 	}
 	return out
 }
@@ -511,7 +523,7 @@ func projBag(b baggage.Baggage) (out []MemObs, coh bool) {
 	ms := sortedMembers(b)
 	coh = len(ms) == b.Len()
 	for _, m := range ms {
-		out = append(out, MemObs{K: quote(m.Key()), V: abstractValue(m.Value()), P: projProps(m.Properties())})
+		out = append(out, MemObs{K: quote(m.Key()), V: abstractValue(m.Value()), P: projProps(m.Properties()), Tk: isToken(m.Key())})
 		m2 := b.Member(m.Key())
 		if m2.Key() != m.Key() || m2.Value() != m.Value() || !sameProps(m.Properties(), m2.Properties()) {
 			coh = false
@@ -785,9 +797,9 @@ func normMembers(ms []MemObs) (string, bool) {
 	}
 	cp := []MemObs{}
 	for _, m := range ms {
-		n := MemObs{K: m.K, V: norm(m.V), P: []PropObs{}}
+		n := MemObs{K: m.K, V: norm(m.V), P: []PropObs{}, Tk: m.Tk}
 		for _, p := range m.P {
-			n.P = append(n.P, PropObs{K: p.K, V: norm(p.V), Hv: p.Hv})
+			n.P = append(n.P, PropObs{K: p.K, V: norm(p.V), Hv: p.Hv, Tk: p.Tk})
 		}
 		cp = append(cp, n)
 	}
@@ -975,7 +987,21 @@ func (s *store) member(a Arg) (built, error) {
 	if err != nil {
 		return built{}, err
 	}
-	return buildMember(c.key, c.val, c.props, s.rep%3 != 0, s.rep), nil
+	return buildMember(c.key, c.val, c.props, s.raw(c), s.rep), nil
+}
+
+// raw: which constructor family builds the member. Keys that are not tokens are only accepted by the Raw
+// constructors (the encoded ones document that they refuse them), so those always take the Raw ones.
+func (s *store) raw(c concArg) bool {
+	if !isToken(c.key) {
+		return true
+	}
+	for _, p := range c.props {
+		if !isToken(p.k) {
+			return true
+		}
+	}
+	return s.rep%3 != 0
 }
 
 var junkProp, _ = baggage.NewKeyValuePropertyRaw("scribbled", "by;the,caller")
@@ -999,7 +1025,7 @@ func (s *store) exec(a storeAct, conc *concStoreAct) error {
 	build := func(i int, abs Arg) (built, error) {
 		if conc != nil {
 			c := conc.args[i]
-			return buildMember(c.key, c.val, c.props, s.rep%3 != 0, s.rep), nil
+			return buildMember(c.key, c.val, c.props, s.raw(c), s.rep), nil
 		}
 		return s.member(abs)
 	}
